@@ -24,7 +24,7 @@ CpReadTruncate(p) ==
   /\ IF cpfile = "ok"
      THEN /\ inv' = [inv EXCEPT ![p] = [@ EXCEPT !.pc = "cpwrite", !.ncp = CpUpdate(repo, 0, TRUE).cp]]
           /\ cpfile' = "torn" /\ UNCHANGED holder
-     ELSE Release(p) /\ UNCHANGED cpfile
+     ELSE Done(p) /\ UNCHANGED cpfile
   /\ actor' = p /\ UNCHANGED <<repo, store, nruns, nedits, obs>>
 
 Post == [store |-> store', cpfile |-> cpfile', cp |-> repo'.cp, holder |-> holder', obs |-> obs',
@@ -34,8 +34,8 @@ Post == [store |-> store', cpfile |-> cpfile', cp |-> repo'.cp, holder |-> holde
 (* random), so that situations a uniform walk rarely reaches are replayed in every run of the checks.              *)
 S(a, p, api) == [a |-> a, p |-> p, api |-> api]
 FullRun(p) == << S("Start", p, "run"), S("TryLock", p, ""), S("RunChoose", p, ""), S("RunEffect", p, ""), S("RunEffect", p, ""),
-                 S("RunReadRepo", p, ""), S("RunEffect", p, ""), S("RunEffect", p, ""), S("RunEffect", p, "") >>
-FullCpUpdate(p) == << S("Start", p, "cp_update"), S("TryLock", p, ""), S("CpReadTruncate", p, ""), S("CpWrite", p, "") >>
+                 S("RunReadRepo", p, ""), S("RunEffect", p, ""), S("RunEffect", p, ""), S("RunEffect", p, ""), S("Finish", p, "") >>
+FullCpUpdate(p) == << S("Start", p, "cp_update"), S("TryLock", p, ""), S("CpReadTruncate", p, ""), S("CpWrite", p, ""), S("Finish", p, "") >>
 Show(p) == << S("Start", p, "result_show"), S("ResultShow", p, "") >>
 Ana(p) == << S("Start", p, "analyze"), S("Analyze", p, "") >>
 Script ==
@@ -45,11 +45,11 @@ Script ==
          FullRun(1) \o SubSeq(FullRun(1), 1, 8) \o << S("Crash", 1, "") >> \o Show(2) \o FullRun(2) \o Show(1) \o FullRun(1) \o Show(2)
     [] ScriptId = 3 -> \* checkpoint update killed inside its rewrite window; what analyze, run, checkpoint delete and out delete do then
          << S("EnvEdit", 0, "") >> \o SubSeq(FullCpUpdate(1), 1, 3) \o << S("Crash", 1, "") >> \o Ana(2)
-           \o SubSeq(FullRun(1), 1, 6) \o << S("Start", 1, "cp_delete"), S("TryLock", 1, ""), S("CpDelete", 1, "") >> \o Ana(2)
-           \o << S("Start", 1, "out_delete"), S("TryLock", 1, ""), S("OutDelete", 1, "") >> \o Ana(2) \o FullCpUpdate(2) \o Ana(1)
+           \o SubSeq(FullRun(1), 1, 6) \o << S("Finish", 1, ""), S("Start", 1, "cp_delete"), S("TryLock", 1, ""), S("CpDelete", 1, ""), S("Finish", 1, "") >> \o Ana(2)
+           \o << S("Start", 1, "out_delete"), S("TryLock", 1, ""), S("OutDelete", 1, ""), S("Finish", 1, "") >> \o Ana(2) \o FullCpUpdate(2) \o Ana(1)
     [] ScriptId = 4 -> \* edits and a commit while a run is parked before it reads the repository; contenders meanwhile
          FullCpUpdate(1) \o SubSeq(FullRun(1), 1, 5) \o << S("EnvEdit", 0, "af"), S("Start", 2, "cp_update"), S("TryLock", 2, ""),
-              S("EnvEdit", 0, "cf"), S("EnvCommitAll", 0, ""), S("RunReadRepo", 1, "") >> \o Ana(2) \o SubSeq(FullRun(1), 7, 9) \o Show(2)
+              S("EnvEdit", 0, "cf"), S("EnvCommitAll", 0, ""), S("RunReadRepo", 1, "") >> \o Ana(2) \o SubSeq(FullRun(1), 7, 10) \o Show(2)
     [] OTHER -> << >>
 Scripted == Len(hist) < Len(Script)
 FollowsScript(a, p, x) == Scripted => LET sc == Script[Len(hist) + 1] IN
@@ -75,6 +75,7 @@ SNext ==
              \/ CpWrite(p) /\ Log("CpWrite", p, <<>>)
              \/ CpDeleteStep(p) /\ Log("CpDelete", p, <<>>)
              \/ OutDeleteStep(p) /\ Log("OutDelete", p, <<>>)
+             \/ Finish(p) /\ Log("Finish", p, <<inv[p].api>>)
              \/ Analyze(p) /\ Log("Analyze", p, <<>>)
              \/ ResultShow(p) /\ Log("ResultShow", p, <<>>)
   \/ \E p \in Procs : ncrash < MaxCrashes /\ Thin(6) /\ Crash(p) /\ ncrash' = ncrash + 1 /\ Log("Crash", p, <<inv[p].api, inv[p].pc>>)
